@@ -69,14 +69,16 @@ def numeric(ctx):
         except ValueError:
             continue
         Lv, Sv = c.frame_length, c.frame_shift
-        if not (0 < Sv <= Lv):
+        wide = Sv > Lv  # frame_shift > frame_length: compute_full still works unless the kaldi left pad is negative
+        if Sv <= 0 or (wide and kw["kaldi_shift"] and kw["frame_style"] == "centered"):
             continue
+        ctx.count("shift:" + (">L" if wide else "<=L"))
         try:
             m = pst.PyTorchSTFTFrameComputer.from_stft_frame_computer(c)
         except ValueError:
             continue  # a filter without bins: not constructible
         ms = torch.jit.script(m) if rng.random() < 0.3 else None
-        for N in [0, Lv // 2, Lv // 2 + 1, Lv - 1, Lv, Lv + 1, rng.randint(0, 3 * Lv + 5)]:
+        for N in [0, Lv // 2, Lv // 2 + 1, Lv - 1, Lv, Lv + 1, rng.randint(0, 3 * Lv + 5)] + ([(Sv + 1) // 2 - 1, (Sv + 1) // 2, Sv + Lv] if wide else []):
             for dt, tol in ((np.float64, 2e-5), (np.float32, 2e-3)):  # module buffers (window, filters) are float32
                 # loud, quiet (mean square below LOG_FLOOR_VALUE) and silent signals: both sides of the log floor
                 level = rng.choice(["loud", "loud", "quiet", "silence"])
@@ -88,9 +90,13 @@ def numeric(ctx):
                 ctx.count("module:" + name)
                 ctx.count("len:" + ("<L/2+1" if N < Lv // 2 + 1 else "<L" if N < Lv else ">=L"))
                 try:
-                    got = m(torch.from_numpy(x)).detach().numpy()
+                    xin = x.copy()
+                    got = m(torch.from_numpy(xin)).detach().numpy()
                 except Exception as e:  # noqa
                     bad.append(dict(desc, what="exception %s: %s" % (type(e).__name__, str(e)[:200])))
+                    continue
+                if not np.array_equal(xin, x):
+                    bad.append(dict(desc, what="the module modified the signal tensor it was given"))
                     continue
                 if got.shape != ref.shape:
                     bad.append(dict(desc, what="shape", torch=list(got.shape), numpy=list(ref.shape)))
@@ -117,12 +123,30 @@ def numeric(ctx):
         if a.shape != b.shape or not np.allclose(a, b, rtol=1e-12, atol=1e-12):
             bad.append(dict(what="PyTorchPreemphasize differs", coeff=coeff, N=N))
         feats = nprng.randn(rng.randint(3, 12), 6)
-        for pp in (post.Deltas(2), post.Stack(2), post.Standardize()):
-            w = pst.PyTorchPostProcessorWrapper.from_postprocessor(pp)
-            ra, rb = pp.apply(feats), w(torch.from_numpy(feats)).numpy()
-            ctx.count("postwrap")
-            if ra.shape != rb.shape or not np.allclose(ra, rb):
-                bad.append(dict(what="PyTorchPostProcessorWrapper differs", post=type(pp).__name__))
+        glob = post.Standardize()
+        glob.accumulate(nprng.randn(20, 6) * 3.0 + 1.5)
+        for pp in (post.Deltas(2), post.Stack(2), post.Standardize(), glob):
+            for fdt in (np.float64, np.float32):
+                w = pst.PyTorchPostProcessorWrapper.from_postprocessor(pp)
+                pristine = feats.astype(fdt)
+                ra = pp.apply(pristine.copy())
+                # the tensor handed to the module shares memory with `given`: the module must leave it alone,
+                # and a second call (and the NumPy object evaluated afterwards) must give the same answer
+                given = pristine.copy()
+                t = torch.from_numpy(given)
+                rb = w(t).numpy()
+                rb2 = w(t).numpy()
+                ra2 = pp.apply(given.copy())
+                ctx.count("postwrap")
+                pname = type(pp).__name__ + (" (global statistics)" if pp is glob else "")
+                if ra.shape != rb.shape or not np.allclose(ra, rb, rtol=1e-5, atol=1e-6):
+                    bad.append(dict(what="PyTorchPostProcessorWrapper differs", post=pname, dtype=str(np.dtype(fdt))))
+                elif not np.array_equal(given, pristine):
+                    bad.append(dict(what="PyTorchPostProcessorWrapper modifies the tensor it is given", post=pname, dtype=str(np.dtype(fdt)),
+                                    input=pristine.tolist(), input_after_call=given.tolist()))
+                elif rb2.shape != rb.shape or not np.allclose(rb2, rb, rtol=1e-6, atol=1e-7) or not np.allclose(ra2, ra, rtol=1e-6, atol=1e-7):
+                    bad.append(dict(what="PyTorchPostProcessorWrapper: a second call on the same tensor gives another result", post=pname,
+                                    dtype=str(np.dtype(fdt))))
     for rep in range(ctx.scale(6, 30)):
         bank = filters.GaborFilterBank("mel", num_filts=4, sampling_rate=8000)
         si = compute.SIFrameComputer(bank, frame_shift_ms=rng.choice([2.5, 5.0]), include_energy=rng.random() < 0.5)
@@ -205,9 +229,18 @@ def run(ctx):
     rng = ctx.rng
     # (i) framing of the torch port, captured at the FFT input
     tcases = []
-    for _ in range(ctx.scale(500, 4000)):
-        cfg = stft.rand_cfg(rng, maxL=24)
-        N = rng.choice(stft.interesting_lengths(cfg) + [rng.randint(0, 5 * cfg[0])] * 3)
+    for it in range(ctx.scale(600, 4800)):
+        if it % 6 == 5:
+            # frame_shift > frame_length (causal / plain centered): lengths around the point where the
+            # frame count (N + S//2)//S rounds to zero although N >= L//2+1
+            Lw = rng.randint(1, 12)
+            Sw = rng.randint(Lw + 1, 3 * Lw + 3)
+            cfg = (Lw, Sw, rng.random() < 0.5, False)
+            N = rng.choice(stft.interesting_lengths(cfg) + [(Sw + 1) // 2 - 1, (Sw + 1) // 2, Lw // 2 + 1, Sw + Lw, rng.randint(0, 4 * Sw)])
+            ctx.count("tframes:shift>L")
+        else:
+            cfg = stft.rand_cfg(rng, maxL=24)
+            N = rng.choice(stft.interesting_lengths(cfg) + [rng.randint(0, 5 * cfg[0])] * 3)
         try:
             frames, shape = capture_torch_frames(cfg, N)
         except Exception as e:  # noqa
@@ -287,5 +320,5 @@ def run(ctx):
         "RNG distribution (PyTorchDither) and TorchScript == eager are run-time facts: differential only",
         "float32/complex64 round-off: tolerance 2e-3 relative (2e-5 for float64 input: the module stores window and filters in float32)",
     ]
-    ctx.assumptions += ["0 < frame_shift <= frame_length"]
+    ctx.assumptions += ["0 < frame_shift; frame_shift > frame_length only without kaldi_shift (np.pad rejects the negative left pad)"]
     return C.finish(ctx, "proof")
